@@ -500,6 +500,7 @@ pub fn cmd_run(args: &[String]) -> i32 {
             }
         }
     }
+    let mut hangs_not_reproduced = 0u64;
     let mut harness_errors: Vec<String> = Vec::new();
     let mut parts: Vec<(u64, u64)> = Vec::new();
     let mut hang_restarts = 0u64;
@@ -668,6 +669,15 @@ pub fn cmd_run(args: &[String]) -> i32 {
         // replay in a fresh process
         let rp = std::process::Command::new(&exe).arg("replay").arg(&replay_path).arg("--quiet").env("PATH", out.join("emptybin")).output();
         let reproduced = rp.as_ref().map(|o| o.status.code() == Some(1)).unwrap_or(false);
+        if !reproduced && is_hang {
+            // The watchdog measures REAL time, the one thing the simulator does not control: a run that was
+            // abandoned as hung but completes when its case is replayed in a fresh process was slow (a loaded or
+            // slow machine), not stuck. It is reported in the evidence and on stderr, not as a violation or an error.
+            eprintln!("NOTE: a run abandoned by the real-time watchdog (seed {rseed}) completes when replayed in a fresh process: attributed to machine load, not counted");
+            hangs_not_reproduced += *count;
+            let _ = std::fs::remove_file(&replay_path);
+            continue;
+        }
         if !reproduced {
             harness_errors.push(format!(
                 "violation with signature {sig} (seed {rseed}) did not reproduce from its replay file {} in a fresh process",
@@ -760,6 +770,7 @@ pub fn cmd_run(args: &[String]) -> i32 {
             "reached": reached,
             "counters": other,
             "in_process_determinism_rechecks": rechecks,
+            "runs_abandoned_by_the_real_time_watchdog_that_complete_on_replay": hangs_not_reproduced,
             "regression_corpus": {"replay_files": regression_files, "reproduced": regression_reproduced},
             "workers": workers,
             "known_findings_seen": known_seen.iter().map(|(k, (_, n))| (k.clone(), json!(n))).collect::<Map<String, Value>>(),
